@@ -23,35 +23,35 @@ def trees_pipeline(run, prop, observe=False):
     prints = prop in ("C01", "C12")     # the printer model (Printers.tla) is compared with String() / GoString() on these runs
     # the leaf zoo: every leaf form (incl. repeated values, equal bounds, empty strings) under every single operator
     casesz, gz = stage_gen_trees(run, ALL_KINDS, 1, ws=1, muts=1, name="gen_zoo")
-    resz, _, _ = stage_groups(run, casesz, name="parse_zoo", prints=prints)
+    resz, _, _ = stage_groups(run, casesz, name="parse_zoo", prints=prints, observe=observe)
     stage_judge_trees(run, resz, prop, casesz, name="judge_zoo")
     # field groups  w:( E )  over every tree of depth <= 2 (the group is one more unary operator)
     casesg, gg = stage_gen_trees(run, ["bare", "feq", "FGROUP"], 2, ws=1, muts=1 if prop in ("C06", "C10", "C11", "C01") else 0, name="gen_fgroup")
-    resg, _, _ = stage_groups(run, casesg, name="parse_fgroup", prints=prints)
+    resg, _, _ = stage_groups(run, casesg, name="parse_fgroup", prints=prints, observe=observe)
     stage_judge_trees(run, resg, prop, casesg, name="judge_fgroup")
     casesg, gg = stage_gen_trees(run, ["bare", "feq", "FGROUP"], 3, ws=1, sample=1000 if run.tier == "quick" else 20000, name="gen_fgroup3")
-    resg, _, _ = stage_groups(run, casesg, name="parse_fgroup3", prints=prints)
+    resg, _, _ = stage_groups(run, casesg, name="parse_fgroup3", prints=prints, observe=observe)
     stage_judge_trees(run, resg, prop, casesg, name="judge_fgroup3")
     if run.tier == "quick":
         cases, g = stage_gen_trees(run, QUICK_KINDS + (["bareint"] if prop == "C07" else []), 2, ws=1 if prop != "C07" else 0,
                                    muts=2 if prop in ("C06", "C10", "C11", "C01") else 0)
-        res, tr, s = stage_groups(run, cases, trace_every=25, prints=prints)
+        res, tr, s = stage_groups(run, cases, trace_every=25, prints=prints, observe=observe)
         if tr:
             stage_trace(run, tr, name="trace_trees")
         stage_judge_trees(run, res, prop, cases)
         # deeper trees, sampled with the seeded generator
         cases2, g2 = stage_gen_trees(run, DEEP_KINDS + ["FGROUP"], 3, ws=1, sample=1500, muts=1, name="gen_deep")
-        res2, _, _ = stage_groups(run, cases2, name="parse_deep", prints=prints)
+        res2, _, _ = stage_groups(run, cases2, name="parse_deep", prints=prints, observe=observe)
         stage_judge_trees(run, res2, prop, cases2, name="judge_deep")
     else:
         cases, g = stage_gen_trees(run, THOROUGH_KINDS, 2, ws=2, muts=2)
-        res, tr, s = stage_groups(run, cases, trace_every=20, prints=prints)
+        res, tr, s = stage_groups(run, cases, trace_every=20, prints=prints, observe=observe)
         if tr:
             stage_trace(run, tr, name="trace_trees")
         stage_judge_trees(run, res, prop, cases)
         for i, (depth, n) in enumerate([(3, 20000), (4, 10000)]):
             cases2, g2 = stage_gen_trees(run, DEEP_KINDS + ["FGROUP"], depth, ws=2, sample=n, muts=2, name="gen_deep%d" % depth)
-            res2, tr2, _ = stage_groups(run, cases2, trace_every=40, name="parse_deep%d" % depth, prints=prints)
+            res2, tr2, _ = stage_groups(run, cases2, trace_every=40, name="parse_deep%d" % depth, prints=prints, observe=observe)
             if tr2:
                 stage_trace(run, tr2, name="trace_deep%d" % depth)
             stage_judge_trees(run, res2, prop, cases2, name="judge_deep%d" % depth)
@@ -130,11 +130,22 @@ def deep_malformed_texts():
     return out
 
 
+def depth_sweep_texts():
+    """Valid queries of every nesting depth 1..70 (and a few deeper) in several shapes: a limit on depth, recursion or stack
+    size - which the default field moves by one level - shows as a depth at which the outcome changes."""
+    out = []
+    for k in list(range(1, 71)) + [100, 150, 200]:
+        out += ["NOT " * k + "a", " ".join(["a"] * (k + 1)), "(a OR " * k + "b" + ")" * k, "x:y AND -(" * (k if k <= 70 else k // 2) + "z" + ")" * (k if k <= 70 else k // 2),   # two levels per repetition; TLC reads 255 at most
+                "+" * 1 + "(" * k + "a:b" + ")" * k, "f:(" * k + "a" + ")" * k, " OR ".join(["a:b"] * (k + 1)), "a" + "^2" * 1 + " AND b" * k,
+                "NOT(" * k + "a b" + ")" * k]
+    return out
+
+
 def check_C10(run):
     common_assumptions(run)
     enum_pipeline(run, "C10", observe=True)
-    trees_pipeline(run, "C10")
-    res, _, _ = stage_texts(run, deep_malformed_texts(), observe=True, name="deep_malformed")
+    trees_pipeline(run, "C10", observe=True)
+    res, _, _ = stage_texts(run, deep_malformed_texts() + depth_sweep_texts(), observe=True, name="deep_malformed")
     stage_judge_enum(run, res, "C10", name="judge_deep_malformed")
     # byte level: arbitrary symbol sequences (NUL, invalid UTF-8, quotes ...) through Parse and both renderers
     import lexfam
@@ -156,6 +167,9 @@ def check_C11(run):
     common_assumptions(run)
     enum_pipeline(run, "C11")
     trees_pipeline(run, "C11")
+    # every nesting depth: the default field makes every bare term one level deeper
+    res, _, _ = stage_texts(run, depth_sweep_texts(), name="depth_sweep")
+    stage_judge_enum(run, res, "C11", name="judge_depth_sweep")
     # default-field names that need quoting / look like syntax
     for i, df in enumerate(["my field", "a*", "x:y", "\"q\"", "NOT"]):
         res, _, tot, _ = stage_enum(run, 3 if run.tier == "quick" else 4, FULL_ALPHABET, name="enum_df%d" % i, df=df)
